@@ -150,34 +150,52 @@ def _tiny(nmax):
             yield (json.dumps(f), 'main')
 
 
+PROBE_SEED = 424242      # the probe families do not depend on the run seed or the tier: their violation keys are stable
+PROBE_COUNT = 30
+PROBE_SIZE = 10
+
+# name, generator features, zone set, description
+DEFECT_AREAS = [
+    ('css-outward-later-rules', '', 'after',
+     'balanced_outward at positions after the first top-level rule closed'),
+    ('css-declaration-tail', '', 'tail',
+     'match / outward / inward at positions between the end of a value and its terminating semicolon (inclusive)'),
+    ('css-paren-delimiters', 'P', 'main',
+     'parenthesised expressions contain `;`, `{`, `}` (url(data:..;base64,..), #{..} inside parentheses); zones as css-tree'),
+    ('css-leading-colon', 'L', 'main',
+     'selectors that start with a colon (:root, ::selection, nested :hover); zones as css-tree'),
+]
+
+
 def run(tier, seed):
     quick = tier == 'quick'
     ntrees, size = (300, 12) if quick else (3000, 40)
     nsmall = 150 if quick else 750
     out = []
 
-    def rnd(name, feats, zoneset, count, sz, what):
+    def rnd(name, feats, zoneset, count, sz, what, sd):
         c = Clause(name, 'B',
                    generator='bounded/c10_gen.py: stylesheet rendered from a random tree (seed %d) of nested rules, `;`-terminated '
-                             'declarations and comments, random layout; features %r; %s' % (seed, feats, what),
+                             'declarations and comments, random layout; features %r; %s' % (sd, feats, what),
                    bound='%d trees of <= %d nodes, >= 2 top-level rules, nesting depth <= 6; every position 0..len(doc) of the zone' % (count, sz),
                    rule='a case is one generated stylesheet (match, balanced_outward, balanced_inward at every position of the '
                         'zone against the generator record); distinct by (seed, index, size, features)', exhaustive=False)
         run_parallel(c, 'bounded.c10', 'check_random',
-                     ((seed, i, sz, feats, zoneset) for i in range(count)), chunk=max(1, count // 56))
+                     ((sd, i, sz, feats, zoneset) for i in range(count)), chunk=max(1, count // 56))
         c.done()
         out.append(c)
+        return c
 
     rnd('css-tree', '', 'main', ntrees, size,
-        'match/inward at all positions except declaration tails, outward at positions up to the end of the first top-level rule')
-    rnd('css-outward-later-rules', '', 'after', ntrees, size,
-        'balanced_outward at positions after the first top-level rule closed')
-    rnd('css-declaration-tail', '', 'tail', ntrees, size,
-        'positions between the end of a value and its terminating semicolon (inclusive)')
-    rnd('css-paren-delimiters', 'P', 'main', nsmall, size,
-        'parenthesised expressions contain `;`, `{`, `}` (url(data:..;base64,..), #{..} inside parens)')
-    rnd('css-leading-colon', 'L', 'main', nsmall, size,
-        'selectors that start with a colon (:root, ::selection, nested :hover)')
+        'match/inward at all positions except declaration tails, outward at positions up to the end of the first top-level rule', seed)
+    # Areas in which the unchanged tree is known to contradict the statement (notes/C10.md): a small probe family with
+    # a fixed seed first (same cases in every tier and for every run seed, all violations recorded); the large random
+    # family of the area is run only if its probe family passes -- otherwise it would merely repeat the same finding
+    # hundreds of times under run-dependent keys.
+    for name, feats, zoneset, what in DEFECT_AREAS:
+        probe = rnd(name + '-probe', feats, zoneset, PROBE_COUNT, PROBE_SIZE, what + ' [fixed probe family]', PROBE_SEED)
+        if not probe.violations:
+            rnd(name, feats, zoneset, ntrees if not feats else nsmall, size, what, seed)
 
     nmax = 4 if quick else 5
     c = Clause('css-tiny-exhaustive', 'B',
